@@ -92,7 +92,8 @@ BPN_(k, s) == I("BucketProofOfNF", "", "", 0, s, k, "", 0)
 Pop_ == I("PopFromAuthZone", "", "", 0, {}, 0, "", 0)
 Cl_(k) == I("CloneProof", "", "", 0, {}, k, "", 0)
 Dr_(k) == I("DropProof", "", "", 0, {}, k, "", 0)
-Up_(x) == I("UpdateNFData", "", "N", 0, {}, x, "m", 1)
+Up_(x) == I("UpdateNFData", "", "N", 0, {}, x, "b", 7)
+UpF_(r, x, f, v) == I("UpdateNFData", "", r, 0, {}, x, f, v)
 ScA(n, items, ops, res, acc) == [name |-> n, items |-> items, ops |-> ops, res |-> res, acc |-> acc]
 Sc(n, items, ops, res) == ScA(n, items, ops, res, {"a1", "a2"})
 LeaveF == {"Withdraw", "Recall", "BurnInAccount", "ProofOfAmount"}
@@ -126,6 +127,11 @@ ScH == {Sc("h1", <<MN_({3}), DB_("a1"), E_, BN_("a1", {3}), E_>>, NFHist, {"N"})
         Sc("h4", <<BN_("a1", {1}), E_, MN_({3}), W_("a1", 6)>>, NFHist, {"N"}),
         Sc("h5", <<Up_(1), E_>>, {"UpdateNFData", "BurnNFInAccount", "MintNF"}, {"N"}),
         Sc("h6", <<MN_({3}), TA_("N"), Bu_(1), E_>>, NFHist, {"N"}),
+        Sc("h7", <<UpF_("N", 1, "b", 7), UpF_("N", 1, "d", 8)>>, {"UpdateNFData", "BurnNFInAccount"}, {"N"}),
+        Sc("h8", <<UpF_("N", 1, "d", 8), E_, UpF_("N", 2, "b", 7), E_>>, {"UpdateNFData"}, {"N"}),
+        Sc("h9", <<UpF_("N", 1, "b", 7), UpF_("N", 1, "a", 9)>>, {"UpdateNFData"}, {"N"}),
+        Sc("u0", <<>>, {"UpdateNFData", "MintRuid", "BurnNFInAccount"}, {"U"}),
+        Sc("u4", <<UpF_("U", 1, "d", 8), E_>>, {"UpdateNFData", "BurnNFInAccount"}, {"U"}),
         Sc("u1", <<MR_(1), DB_("a1"), E_>>, NFHist, {"U"}),
         Sc("u2", <<MR_(1), E_>>, {"MintRuid", "WithdrawNF", "MintNF"}, {"U"}),
         Sc("u3", <<MR_(2), DB_("a2"), E_, I("BurnNFInAccount", "a2", "U", 0, {2}, 0, "", 0), E_>>, NFHist, {"U"})}
